@@ -111,6 +111,14 @@ def _impl(tier, seed, search):
                 L.close('crm(int)', r[0], crm @ np.array(mi, float), TOL, sci, dict(v=vel, m=mi, form=form_), what='motion cross product with an integer-valued operand differs from the matrix form', sig='cross(int)')
                 L.close('crf(int)', r[1], -crm.T @ np.array(fi, float), TOL, sci, dict(v=vel, f=fi, form=form_), sig='cross(int)')
                 L.close('matmul(int)', r[2], crm @ np.array(mi, float), TOL, sci, dict(v=vel, m=mi, form=form_), sig='cross(int)')
+        # velocities with an exactly zero angular or linear part (prismatic / revolute joint velocities): the same matrices
+        if i % 3 == 0:
+            for nm_, vz in (('linear only', np.r_[vel[:3], 0, 0, 0]), ('angular only', np.r_[0, 0, 0, vel[3:]]), ('one linear component', np.r_[0, 0, 0.8, 0, 0, 0]), ('one angular component', np.r_[0, 0, 0, 0, -1.3, 0])):
+                vz = np.asarray(vz, float); Wz = sk(vz[3:]); Vz = sk(vz[:3]); crz = np.block([[Wz, Vz], [np.zeros((3, 3)), Wz]])
+                ok, r = L.noraise(f'cross({nm_})', lambda: (SpatialVelocity(vz).cross(SpatialVelocity(m2)).A, SpatialVelocity(vz).cross(SpatialForce(frc)).A, SpatialAcceleration(vz).cross(SpatialVelocity(m2)).A if hasattr(SpatialAcceleration, 'cross') else None), dict(v=vz, m=m2, f=frc), 'cross products of a velocity with a zero part')
+                if ok:
+                    L.close(f'crm({nm_})', r[0], crz @ m2, TOL, max(1.0, float(np.max(np.abs(vz)))) * float(np.max(np.abs(m2))), dict(v=vz, m=m2), what=f'motion cross product of a velocity with {nm_} is not [skew(w) skew(v); 0 skew(w)] m', sig='cross:zero-part')
+                    L.close(f'crf({nm_})', r[1], -crz.T @ frc, TOL, max(1.0, float(np.max(np.abs(vz)))) * float(np.max(np.abs(frc))), dict(v=vz, f=frc), what=f'force cross product of a velocity with {nm_} is not the negative transpose of the motion cross product', sig='cross:zero-part')
         ok, r = L.noraise('crf(momentum)', lambda: (SpatialVelocity(vel).cross(SpatialMomentum(frc)), SpatialVelocity(vel) @ SpatialMomentum(frc)), dict(v=vel, h=frc), 'velocity x* momentum')
         if ok:
             L.close('crf(momentum)', r[0].A, -crm.T @ frc, TOL, sv * float(np.max(np.abs(frc))), dict(v=vel, h=frc), what='force cross product applied to a momentum is not the negative transpose of the motion cross product', sig='crf:momentum')
